@@ -24,7 +24,10 @@ def job_set_remove(ses):
         if isinstance(r, Panic):
             if upper_obligation(ses, 'GenericBuilder::set_claim: no panic (%s)' % r.msg[:50], list(s2.pc)): ses.violation('GenericBuilder::set_claim panics: ' + r.msg, {}, {'kind': 'c14'})
             continue
-        b2 = read_generic_builder(w, s2, cell)
+        try: b2 = read_generic_builder(w, s2, cell)
+        except Unsupported as e:
+            # set_claim's body could not be encoded and was abstracted: what it stores is unknown - a candidate for the native replay (claim values of native types included)
+            ses.violation('GenericBuilder::set_claim: what the (abstracted) body stores for a claim is unknown', {'reason': str(e)[:200]}, {'kind': 'c14'}); continue
         post = And(Implies(k != StringVal(''), And(Select(b2['P'], k), Select(b2['V'], k) == val)),
                    Implies(kq != k, And(Select(b2['P'], kq) == Select(sb.P, kq), Select(b2['V'], kq) == Select(sb.V, kq))),
                    Implies(k == StringVal(''), And(Select(b2['P'], k) == Select(sb.P, k))))
@@ -120,7 +123,9 @@ def job_end_to_end(ses, proto):
     kq = String('k_any'); n = 0
     for s1, r1 in ex.run(fs[0], [('ref', cell, ()), ('ref', st.new_cell(bkey), ())], st):
         if not is_ok(r1): continue
-        tok = r1[3][0]; core = [e for e in s1.log if e[0] == 'core_build'][0]
+        tok = r1[3][0]; core = [e for e in s1.log if e[0] == 'core_build']
+        if not core: ses.undecided.append('%s end to end: an Ok build without a core call' % proto); continue
+        core = core[0]
         sp = SymParser(w, 0, 0); sp.F = sb.F; sp.A = sb.A if akind == 'some' else StringVal('')
         pcell = s1.new_cell(sp.value())
         # the parse key is the key the token was built with (for public protocols: its public counterpart, which the core summary identifies with it)
